@@ -219,7 +219,21 @@ def main_errors(V):
             ("the error is reported on the console", len(buf.getvalue().strip()) > 0)]
 
 
-FUNCS = {"snapshot_dtype": snapshot_dtype, "buffering_arith": buffering_arith, "t_resize": t_resize, "t_strides": t_strides, "t_broadcast": t_broadcast,
+def t_c16(V, fn, params):
+    """a constraint lemma of harness/c16.py run for totality only: whatever the verdict, the constraint functions it drives must not raise on the
+    operator geometries of that lemma (an exception inside them is an exception inside the compiler)"""
+    from harness import c16
+
+    try:
+        cl = c16.FUNCS[fn](V, **params)
+    except (core.PathAbort, core.Infeasible, core.Inconclusive, core.EngineError):
+        raise
+    except Exception as e:  # noqa: BLE001
+        return [("the constraint functions return verdicts instead of raising (%s: %s)" % (type(e).__name__, str(e)[:80]), False)]
+    return [("the constraint functions return verdicts instead of raising", cl is not None)]
+
+
+FUNCS = {"t_c16": t_c16, "snapshot_dtype": snapshot_dtype, "buffering_arith": buffering_arith, "t_resize": t_resize, "t_strides": t_strides, "t_broadcast": t_broadcast,
          "t_tconv": t_tconv, "main_errors": main_errors}
 
 
@@ -236,4 +250,9 @@ def instances(tier, seed):
         out.append(dict(key="constraints_total/broadcast/%d_%d_%d" % (r1, r2, ro), fn="t_broadcast", params=dict(r1=r1, r2=r2, ro=ro)))
     for p in ("SAME", "VALID"):
         out.append(dict(key="constraints_total/tconv/%s" % p, fn="t_tconv", params=dict(padding=p)))
+    from harness import c16
+
+    for inst in c16.instances(tier, seed):
+        if inst["fn"] in ("c_mean", "c_argmax", "c_transpose", "s_split", "s_concat", "s_slice_ranges", "s_conv_groups", "s_mean_axis", "c_depth_multiplier", "c_filter"):
+            out.append(dict(key="constraints_total/c16/" + inst["key"], fn="t_c16", params=dict(fn=inst["fn"], params=inst["params"])))
     return out
